@@ -118,9 +118,16 @@ def gen_generation(rnd, index, ending):
                 flavour = rnd.choice(common.FLAVOURS)
                 if flavour == "threading" and program[0][0] in ("spin",):
                     program = [["block"]]
-                gen["payloads"].append({"id": pid, "flavour": flavour, "program": program, "cleanup": {"kind": "none"}})
+                gen["payloads"].append({"id": pid, "flavour": flavour, "program": program, "cleanup": {"kind": "none"},
+                                        "callable": rnd.choice(["function", "function", "lambda", "partial", "object", "method", "nomodule", "unhashable"])})
                 ops += [["adopt", pid], ["sleep", rnd.choice([0.0, 0.005, 0.02, 0.03])]]
-            script.append(["thread", ops])
+            if rnd.random() < 0.4:
+                # the submitter is a thread payload of the runtime itself
+                gen["payloads"].append({"id": "submitter%d" % t, "flavour": "threading", "cleanup": {"kind": "none"},
+                                        "program": [op + ["strict"] if op[0] == "adopt" else op for op in ops]})
+                script.append(["adopt", "submitter%d" % t])
+            else:
+                script.append(["thread", ops])
     n_second = rnd.choice([0, 0, 1, 2, 3])
     for k in range(n_second):
         script.append(["thread", [["second_accept", "cleanup"] if rnd.random() < 0.5 else ["second_accept"]]])
